@@ -430,7 +430,7 @@ def shared(ctx):
     from rules.engine import core
     from rules.props import c02, c03, c15
     core.import_rules(ctx, [c02.r2_input_resolution, c02.r3_double_spend, c02.r5_effects], "X02")
-    core.import_rules(ctx, [c03.r2_batch_commutativity], "X03")
+    core.import_rules(ctx, [c03.r2_batch_commutativity, c03.r5_inflator], "X03")
     from rules.props import c20
     core.import_rules(ctx, [c20.r1_protocol], "X20")   # a spent coin that is not cleared can be spent again
     core.import_rules(ctx, [c15.r1_selection_atoms, c15.r2_canonical_keys, c15.r3_swaps, c15.r3_deposits, c15.r3_withdrawals, c15.r5_only_selected], "X15")
